@@ -165,6 +165,9 @@ def run(ctx: Ctx):
             kw["node_size"] = [rng.randint(1, 9)]
         if rng.random() < 0.3:
             kw["ax"] = object()
+        if rng.random() < 0.2:
+            # labels switched off: the aliases are still validated, the option is handed on like any other
+            kw["with_labels"] = rng.random() < 0.3
         case = {"nodes": nodes, "aliases": al, "kw": kw}
         r2 = rng.random()
         if r2 < 0.2:
